@@ -333,8 +333,42 @@ func sameValue(a, b ssa.Value) bool {
 	case *ssa.Field:
 		y, ok := b.(*ssa.Field)
 		return ok && x.Field == y.Field && sameValue(x.X, y.X)
+	case *ssa.Slice:
+		y, ok := b.(*ssa.Slice)
+		return ok && sameValue(x.X, y.X) && sameOpt(x.Low, y.Low) && sameOpt(x.High, y.High) && sameOpt(x.Max, y.Max)
+	case *ssa.BinOp:
+		y, ok := b.(*ssa.BinOp)
+		return ok && x.Op == y.Op && sameValue(x.X, y.X) && sameValue(x.Y, y.Y)
 	}
 	return false
+}
+
+func sameOpt(a, b ssa.Value) bool {
+	if a == nil || b == nil {
+		return a == nil && b == nil
+	}
+	return sameValue(a, b)
+}
+
+// isVar: v is the parameter, or a load of the captured/local variable, named name.
+func isVar(name string) func(ssa.Value) bool {
+	return func(v ssa.Value) bool {
+		v = strip(v)
+		switch x := v.(type) {
+		case *ssa.Parameter:
+			return x.Name() == name
+		case *ssa.UnOp:
+			if x.Op == token.MUL {
+				switch a := x.X.(type) {
+				case *ssa.FreeVar:
+					return a.Name() == name
+				case *ssa.Alloc:
+					return a.Comment == name
+				}
+			}
+		}
+		return false
+	}
 }
 
 func sameAddr(a, b ssa.Value) bool {
@@ -347,6 +381,9 @@ func sameAddr(a, b ssa.Value) bool {
 		return ok && x.Field == y.Field && (x.X == y.X || sameValue(x.X, y.X))
 	case *ssa.Global:
 		return a == b
+	case *ssa.IndexAddr:
+		y, ok := b.(*ssa.IndexAddr)
+		return ok && sameValue(x.X, y.X) && sameValue(x.Index, y.Index)
 	}
 	return false
 }
@@ -516,4 +553,28 @@ func referrersOf(v ssa.Value) []ssa.Instruction {
 		return *r
 	}
 	return nil
+}
+
+// retVal resolves result #i of a return, looking through the result spill that
+// go/ssa introduces in functions with defer (store to a result alloc, rundefers, load, return).
+func retVal(r *ssa.Return, i int) ssa.Value {
+	if i >= len(r.Results) {
+		return nil
+	}
+	v := r.Results[i]
+	u, ok := v.(*ssa.UnOp)
+	if !ok || u.Op != token.MUL {
+		return v
+	}
+	al, ok := u.X.(*ssa.Alloc)
+	if !ok {
+		return v
+	}
+	instrs := r.Block().Instrs
+	for j := instrIndex(u) - 1; j >= 0; j-- {
+		if st, ok := instrs[j].(*ssa.Store); ok && st.Addr == ssa.Value(al) {
+			return st.Val
+		}
+	}
+	return v
 }
